@@ -844,9 +844,12 @@ class C17(Check):
         if r['code'] != 0:
             O['tag'] = '%s:cli-fails:%s' % (cmd, r['exc'] or 'exit%s' % r['code'])
             O['nontrivial'] = True
-            mism('valid-invocation-succeeds', stderr=r['stderr'][-300:],
-                 stdout=r['stdout'][:300],
-                 root=r['exc'] or 'exit%s' % r['code'])
+            if r['exc']:
+                # only an escaping exception (a traceback on a documented,
+                # valid invocation) is alarmed on; a deliberate non-zero
+                # status is a convention the statement does not exclude
+                mism('valid-invocation-succeeds', stderr=r['stderr'][-300:],
+                     stdout=r['stdout'][:300], root=r['exc'])
             # the output produced before the failure is still compared below
 
         if cmd == 'discover':
